@@ -117,7 +117,9 @@ Theorem lex_is_reflex_macro_free msep src :
   let '(T, E, lit) := reflex src in
   lr_outcome r = None /\ s_aborted (lr_state r) = false /\
   map tv0 (b_toks (lr_buffer r)) = map rv T /\ map ev0 (lr_errors r) = map rve E /\
-  b_lit (lr_buffer r) = lit.
+  b_lit (lr_buffer r) = lit /\
+  s_aborted (lr_end r) = false /\ s_loop_detected (lr_end r) = false /\
+  s_iters (lr_end r) <= 2 * len (body_of src).
 Proof.
   intros Hok. cbv zeta. unfold lex, reflex, body_of in *. unfold split_bom in *.
   destruct src as [|c r].
